@@ -16,11 +16,11 @@ def _is_fresh_vec(v):
     return a is not None and atom_fn(a) in EMPTY_VEC
 
 
-def positional_map(F, body, names, src, inline=None, x="x"):
+def positional_map(F, body, names, src, inline=None, x="x", mode="int"):
     """If the function returns, for the input sequence named `src`, a sequence with one element f(src[i]) per element in order
     (as `src.iter().map(f).collect()` or as an explicit loop pushing f(el) onto a fresh Vec, unconditionally), return f applied to
     the variable `x`; else None.  (length and order preservation are part of the idiom)"""
-    t = Tracer(F, PUSH_RX, mode="int", inline=inline)
+    t = Tracer(F, PUSH_RX, mode=mode, inline=inline)
     env = {}
     for p, nm in zip(body.params, names):
         t.bind(p, var(nm), env)
@@ -61,3 +61,82 @@ def positional_map(F, body, names, src, inline=None, x="x"):
             from .symx import replace_atom
             return replace_atom(e.args[1], single_atom(el), var(x))
     return None
+
+
+def _zip_pair(d):
+    """zip(elems A, elems B) description -> (A, B)"""
+    if isinstance(d, tuple) and d and d[0] == "zip" and d[1][0] == "elems":
+        other = d[2]
+        if isinstance(other, tuple) and other and other[0] == "iterdesc":
+            other = other[1]
+        if isinstance(other, tuple) and other and other[0] == "elems":
+            unp = lambda k: k[1] if isinstance(k, tuple) and len(k) == 2 and k[0] == "P" else k
+            return unp(d[1][1]), unp(other[1])
+    return None
+
+
+def mismatch_count(F, value, tracer, depth=0):
+    """If `value` is the number of positions at which two sequences differ, counted over zip(A, B) (so over the shorter of the two),
+    return (A, B). Recognised: zip(A,B).filter(|(x,y)| x != y).count() [with a widening cast], a loop over the zip that adds 1 to a
+    zero-initialised counter exactly when the elements differ, and a call of a crate function whose body is one of these."""
+    from .symx import canon_cond
+    a = single_atom(value) if isinstance(value, Poly) else None
+    if a is None:
+        return None
+    fn = atom_fn(a)
+    if fn and fn.startswith("cast_") and len(atom_args(a)) == 1:
+        return mismatch_count(F, atom_args(a)[0], tracer, depth)
+    if fn == "std::iter::Iterator::count":
+        d = a[2]
+        if isinstance(d, tuple) and d[0] == "iterdesc" and d[1][0] == "filter":
+            pair = _zip_pair(d[1][1])
+            clo = d[1][2]
+            node = F.closures.get(clo[1]) if isinstance(clo, tuple) and clo[0] == "closure" and isinstance(clo[1], str) else None
+            if pair and node is not None:
+                pv = Tracer(F, "NONE", mode="int").apply(("closure", node, {}), [("tuple", [var("x"), var("y")])])
+                c, pol = canon_cond(pv, True) if isinstance(pv, Poly) else (None, None)
+                if c is not None and c in (app("eq", var("x"), var("y")), app("eq", var("y"), var("x"))) and pol is False:
+                    return pair
+        return None
+    body = F.bodies.get(fn) if fn else None
+    if body is not None and body.hir and depth < 2 and len(body.params) == 2 and len(atom_args(a)) == 2:
+        t = Tracer(F, "NONE", mode="int")
+        env = {}
+        t.bind(body.params[0], var("a"), env)
+        t.bind(body.params[1], var("b"), env)
+        try:
+            ret = t.eval(body.value, env)
+        except Unsupported:
+            return None
+        inner = mismatch_count(F, ret, t, depth + 1)
+        if inner is None:
+            # counter idiom: let mut n = 0; for (x, y) in a.iter().zip(b.iter()) { if x != y { n += 1 } } n
+            ra = single_atom(ret) if isinstance(ret, Poly) else None
+            if ra and fn_is_cast(ra):
+                ra = single_atom(atom_args(ra)[0])
+            if ra and ra[0] == "v" and ra[1].endswith("@after"):
+                nm = ra[1][:-6]
+                sites = [s for s in t.assign_sites if s[0].split("#")[0] == nm]
+                init = [v for k, v in t.carried_init.items() if k.split("#")[0] == nm]
+                if len(sites) == 1 and init and init[0] == num(0):
+                    _, val, loops, guards = sites[0]
+                    pair = _zip_pair(loops[0][2]) if len(loops) == 1 and loops[0][0] == "iter" else None
+                    if pair and val == var(nm + "@loop") + num(1) and len(guards) == 1:
+                        h = loops[0][1] if isinstance(loops[0][1], str) else None
+                        c, pol = canon_cond(guards[0][0], guards[0][1])
+                        ca = single_atom(c) if isinstance(c, Poly) else None
+                        if h and pol is False and ca and atom_fn(ca) == "eq":
+                            ex = app("elem", pair[0], var(h))
+                            ey = app("elem", ("iterdesc", ("elems", pair[1])), var(h + "_z"))
+                            if set(map(repr, atom_args(ca))) == {repr(ex), repr(ey)}:
+                                inner = pair
+        if inner is None:
+            return None
+        m = {var("a"): atom_args(a)[0], var("b"): atom_args(a)[1]}
+        if inner[0] in m and inner[1] in m and inner[0] != inner[1]:
+            return m[inner[0]], m[inner[1]]
+    return None
+
+
+def fn_is_cast(atom):
+    return (atom_fn(atom) or "").startswith("cast_")
